@@ -555,7 +555,7 @@ def run(chk):
         "(directory header run limits incl. the exact 256-entry bound, id count, name length, device number, timestamps) "
         "or a reasoned exception; K13-padding: pad length is a remainder by cfg->devblksize; K1-metablock: 8 KiB limit "
         "and uncompressed fallback. Sortedness, dense inode numbering and reference resolution are "
-        "not decided; of index placement only K11-indexpos (the block recorded for a directory index is queried before its header is appended). K13-truncate and K11-everyblock (shared with C08) decide two layout-consistency conditions of the block writer. 'Directory listings are strictly sorted': K2-sorted (siblings are linked into the tree at a position chosen by strcmp of the names, whatever order entries arrive in) and K2-exact (a length-limited name comparison also checks that the name ends there).")
+        "not decided; of index placement only K11-indexpos (the block recorded for a directory index is queried before its header is appended). K13-truncate and K11-everyblock (shared with C08) decide two layout-consistency conditions of the block writer. 'Directory listings are strictly sorted': K2-sorted (siblings are linked into the tree at a position chosen by strcmp of the names, whatever order entries arrive in) and K2-exact (a length-limited name comparison also checks that the name ends there) K12-appendsame: a list that is appended to under 'differs from the last element' stores the value it compared.")
     chk.assumptions = ["superblock commit order and bytes_used are decided by the C14 check"]
     prog = load_program("gensquashfs")
     rule_compressor_contract(chk, prog)
